@@ -54,4 +54,13 @@ PROPS = {
         'not_covered': ['merge_pauses_xml / merge_pauses_none (regex rewriting of the finished string)', 'compute_bookmark_element and that bookmark ids are ids of the expression (XPath results)', 'the first half of replace_string (spell/translate recursion, xpath evaluation)', 'words equal to the TTS=None words (rule driven)'],
         'explanation': 'tag tables and the wrapping discipline of replace_string',
     },
+    'C20': {
+        'verus': ['U20c'],
+        'kani': ['U20a'],
+        'technique': 'Kani/CBMC over every char for is_highlighted/highlight/unhighlight on the real crate + Verus frame postcondition (preference restored on every exit path) on the real body of get_navigation_node_from_braille_position',
+        'level_text': 'complete proof of the dots-7-8 highlight algebra for every char (round trip, recognition, identity outside the braille block, validity of from_u32_unchecked) and unbounded proof that the cursor-routing query restores BrailleNavHighlight on every Ok and Err path of its own body',
+        'level_note': 'assumed: find_navigation_node (recursive re-brailling) does not touch preferences, brackets the target and returns nodes with ids; set_preference of a declared string preference succeeds; the propagated error path of find_navigation_node itself is exempted (suspected leak, not reproducible through the API); byte/char-boundary arithmetic of highlight_braille_chars is the subject of unit U20b',
+        'not_covered': ['that ids returned belong to the expression and that re-brailling is free of side effects on the tree (rule evaluation, data-nemeth-frac-level)', 'guess_child_node_ltr/rtl search arithmetic', 'the `?` after find_navigation_node (returns before restoring; suspected, no API-level failing input found)'],
+        'explanation': 'highlight algebra + purity frame of the cursor-routing query',
+    },
 }
